@@ -1,5 +1,5 @@
 (* C09 property theorems: statements + `exact lemma` only. *)
-From CJ Require Import Common.Base C09.Model C09.ProofsA C09.ProofsS C09.ProofsB.
+From CJ Require Import Common.Base C09.Model C09.ProofsA C09.ProofsV C09.ProofsS C09.ProofsB.
 From Coq Require Import Arith PeanoNat Permutation.
 Local Open Scope nat_scope.
 
@@ -16,6 +16,15 @@ Theorem C09_visible_only_after_validate : forall split share ths acts,
   seen_after_announce (trace (run split share (init ths) acts)).
 Proof. exact visible_lemma. Qed.
 Print Assumptions C09_visible_only_after_validate.
+
+(* ... and, for the code with TrackRegIfNotExists, what the handler is handed (and what is announced)
+   had its own covert address checked and resolved by its own ingest first -- sweeper, reloads and
+   ageing included. *)
+Theorem C09_visible_covert_checked : forall share ths acts,
+  (forall t, worker_fresh (nth t ths TNone) = true) ->
+  covert_checked_before (trace (run false share (init ths) acts)).
+Proof. exact covert_checked_lemma. Qed.
+Print Assumptions C09_visible_covert_checked.
 
 (* No update is lost: the counter of a tracked registration is the number of ingests of its key
    since it was (re-)tracked. *)
